@@ -462,6 +462,10 @@ def _build(v, w):
             return pendulum.duration(days=base.days, seconds=base.seconds, microseconds=base.microseconds)
     if tag == "$strsub":
         return _StrSub(a)
+    if tag == "$intsub":
+        return _IntSub(a)
+    if tag == "$floatsub":
+        return _FloatSub(float(a))
     if tag == "$type":  # a class object from the world
         mod, name = a.split(".", 1)
         return w.obj(mod, name)
@@ -471,6 +475,14 @@ def _build(v, w):
 class _StrSub(str):
     """A str subclass instance (C06 subclass inputs)."""
 
+    __slots__ = ()
+
+
+class _IntSub(int):
+    __slots__ = ()
+
+
+class _FloatSub(float):
     __slots__ = ()
 
 
